@@ -16,6 +16,8 @@ import ast
 
 from sa import core
 from sa import formula
+from sa import pat
+from sa import tpl
 from sa import pycfg
 from sa import rules_df
 from sa import setalg
@@ -98,34 +100,53 @@ def check(model, rep, tier):
             'states)', line=init.node.lineno)
 
   # ---------------------------------------------------------------- TI-STRONG
-  src = core.norm(vn.node)
+  # the state stored into self.out[node]
+  vp = vn.params()[0]
+  st_out = [n for n in ast.walk(vn.node) if isinstance(n, ast.Assign) and
+            core.norm(n.targets[0]) == 'self.out[%s]' % vp]
+  st_in = [n for n in ast.walk(vn.node) if isinstance(n, ast.Assign) and
+           core.norm(n.targets[0]) == 'self.in_[%s]' % vp]
+  if len(st_out) != 1 or len(st_in) != 1:
+    raise core.AnalysisError('type inference visit_node: in/out stores not found')
+  tout_name = core.norm(st_out[0].value)
+  tin_name = core.norm(st_in[0].value)
+  infs = [n for n in ast.walk(vn.node) if isinstance(n, ast.Assign) and isinstance(
+      n.value, ast.Call) and core.dotted(n.value.func) == 'StmtInferrer']
+  inf_name = core.norm(infs[0].targets[0]) if infs else 'inferrer'
   muts = [core.norm(n) for n in ast.walk(vn.node) if isinstance(n, ast.Call) and
           isinstance(n.func, ast.Attribute) and core.norm(n.func.value).startswith(
-              'types_out') and n.func.attr in ('update', 'pop', 'clear',
-                                               '__setitem__', 'setdefault')]
+              tout_name) and n.func.attr in ('update', 'pop', 'clear',
+                                             '__setitem__', 'setdefault')]
   asg = [core.norm(n) for n in ast.walk(vn.node) if isinstance(n, ast.Assign) and
-         core.norm(n.targets[0]).startswith('types_out')]
-  ok = asg == ['types_out = _TypeMap(types_in)'] and \
-      'types_out.types.update(inferrer.new_symbols)' in muts and \
-      set(muts) <= {'types_out.types.update(inferrer.new_symbols)',
-                    'types_out.types.pop(s, None)'}
+         core.norm(n.targets[0]).startswith(tout_name)]
+  upd = '%s.types.update(%s.new_symbols)' % (tout_name, inf_name)
+  ok = asg == ['%s = _TypeMap(%s)' % (tout_name, tin_name)] and upd in muts and \
+      all(m == upd or (m.startswith(tout_name + '.types.pop(') and m.endswith(', None)'))
+          for m in muts)
   rep.check(ok, 'TI-STRONG', '%s:copy-then-overwrite-new-symbols' % vn.site,
             'types_out must be a copy of types_in in which only the symbols the '
             'statement assigns are replaced', {'assignments': asg, 'mutations': muts},
             line=vn.node.lineno,
             witness='a variable not touched by the statement keeps all its types')
   # formula of the outgoing key set: new symbols in, stale rebinding out
-  def at2(e):
-    return {'node_scope.modified': 'MODIFIED', 'node_scope.deleted': 'DELETED',
-            'inferrer.new_symbols': 'NEW', 'self.out[n]': 'NB_OUT',
-            'self.context_types': 'CONTEXT'}.get(core.norm(e))
+  def extra(e, aliases):
+    t = core.norm(e)
+    if t == inf_name + '.new_symbols':
+      return 'NEW'
+    if t == 'self.context_types':
+      return 'CONTEXT'
+    return None
 
-  ev2, rets2 = rules_df.eval_visit_node(model, vn, at2, {'_TypeMap'})
+  ev2, rets2 = rules_df.eval_visit_node(model, vn, rules_df.df_atoms(vn, extra),
+                                        {'_TypeMap'})
   pc2, v2, env2 = rules_df.final_env(rets2)
   tout = env2.get('@self.out[node]')
   if not isinstance(tout, setalg.SetV):
     raise core.AnalysisError('type inference visit_node: out state not evaluated')
-  sc_atoms = [a for a in tout.f.atoms if a.startswith('OPAQUE[node_scope is not None')]
+  al = setalg.single_assignment_aliases(vn.node)
+  sc_atoms = [a for a in tout.f.atoms if a.startswith('OPAQUE[') and
+              a.endswith(' is not None]') and 'Static.SCOPE' in core.norm(
+                  al.get(a[len('OPAQUE['):-len(' is not None]')], ast.Constant(0)))]
   has_scope = atom(sc_atoms[0]) if sc_atoms else TRUE
   o, cex = implies(atom('NEW'), tout.f)
   rep.check(o, 'TI-STRONG', '%s:new-symbols-recorded' % vn.site,
@@ -144,8 +165,9 @@ def check(model, rep, tier):
   rep.check(o, 'TI-STRONG', '%s:untouched-symbols-kept' % vn.site,
             'types of symbols the statement does not touch flow through',
             {'counterexample': cex}, line=vn.node.lineno)
-  ok = 'inferrer = StmtInferrer(self.resolver, self.scope, self.namespace, ' \
-       'self.closure_types, types_in)' in src and 'inferrer.visit(ast_node)' in src
+  ok = bool(infs) and [core.norm(a) for a in infs[0].value.args] == [
+      'self.resolver', 'self.scope', 'self.namespace', 'self.closure_types', tin_name] \
+      and pat.has(vn.node, '%s.visit(_N_)' % inf_name)
   rep.check(ok, 'TI-STRONG', '%s:inferrer-reads-types_in' % vn.site,
             'the statement inferrer must read the joined input state',
             line=vn.node.lineno)
@@ -230,30 +252,39 @@ def check(model, rep, tier):
 
   # ---------------------------------------------------------------- TI-CLOSURE
   uc = model.func(TI, 'Analyzer._update_closure_types')
-  src = core.norm(uc.node)
   loops = [n for n in ast.walk(uc.node) if isinstance(n, ast.For)]
   ok = len(loops) == 1
   facts = {}
+  ex_name = 'existing_types'
   if ok:
     lp = loops[0]
     ifs = [s for s in lp.body if isinstance(s, ast.If)]
-    ok = len(lp.body) == 1 and len(ifs) == 1 and core.norm(ifs[0].test).endswith(
-        'in existing_types') and [core.norm(s) for s in ifs[0].body] == [
-            'existing_types[k].update(v)'] and [core.norm(s) for s in ifs[0].orelse] \
-        == ['existing_types[k] = set(v)']
+    ok = len(lp.body) == 1 and len(ifs) == 1 and isinstance(lp.target, ast.Tuple) and \
+        len(lp.target.elts) == 2
+    if ok:
+      k, v = [core.norm(e) for e in lp.target.elts]
+      b = pat.match('%s in _E_' % k, ifs[0].test)
+      ok = b is not None and len(ifs[0].body) == 1 and len(ifs[0].orelse) == 1 and \
+          pat.match('_E_[%s].update(%s)' % (k, v), ifs[0].body[0], b) is not None and \
+          pat.match('_E_[%s] = set(%s)' % (k, v), ifs[0].orelse[0], b) is not None
+      if b:
+        ex_name = b['_E_']
     facts = {'loop_body': [core.norm(s) for s in lp.body]}
   whole = [core.norm(n) for n in ast.walk(uc.node) if isinstance(n, ast.Call) and
-           core.norm(n.func) in ('existing_types.update', 'existing_types.clear')]
+           core.norm(n.func) in (ex_name + '.update', ex_name + '.clear')]
   rep.check(ok and not whole, 'TI-CLOSURE', '%s:only-grows' % uc.site,
             'types recorded for a captured variable must be united with what '
             'was recorded at earlier call statements, never replaced',
             dict(facts, whole_map_updates=whole), line=uc.node.lineno,
             witness='two statements calling the same local function with the '
             'captured variable re-assigned to another type in between')
-  src = core.norm(vn.node)
-  ok = 'for def_node in reaching_fndefs' in src and \
-      'self._update_closure_types(def_node, types_out)' in src and \
-      'if def_node.name in reads' in src
+  ok = False
+  for lp in [l for l in ast.walk(vn.node) if isinstance(l, ast.For) and
+             'DEFINED_FNS_IN' in tpl.xnorm(vn, l.iter, l.iter)]:
+    lv = core.norm(lp.target)
+    ok = pat.has(lp, 'self._update_closure_types(%s, %s)' % (lv, tout_name)) and \
+        any(isinstance(i, ast.If) and core.norm(i.test).startswith(lv + '.name in ')
+            for i in lp.body)
   rep.check(ok, 'TI-CLOSURE', '%s:recorded-at-every-calling-statement' % vn.site,
             'closure types are accumulated at every statement that mentions a '
             'reaching local function', line=vn.node.lineno)
